@@ -14,10 +14,14 @@ Executable model of the NSX planner of /repo (`go/pkg/nsx/diff.go`, `config.go`,
 The edit-script function (`myers.Diff`) is a parameter `diff`; the driver instantiates it with
 the port `NA.Nsx.myers`, the theorems quantify over every `diff` that returns valid scripts.
 
-Mirrored repairs of other builders (the model follows the repaired code):
-* `findOnDevice` visits the device groups in ascending id order (C16: sorted map iteration);
-* an empty address list sorts as "" (`firstAddr`, C20);
-* a target rule naming a managed group the target does not define aborts (`abort`, C20).
+Mirrored repairs in /repo (the model follows the repaired code):
+* a3659de `checkRaw` rejects raw policies whose id lacks the prefix;
+* f4446e1 `genUniq*Names` avoid the other names of the target (`renameIds`);
+* 08ed954 `sortRules` breaks ties by the whole address lists (`groupCmp`);
+* f403263 (C16) `findOnDevice` visits the device groups in ascending id order;
+* e753b80 (C20) an empty address list sorts as "" (`firstAddr`);
+* 45199d8 (C20) a target rule naming a managed group the target does not define aborts (`abort`).
+Sorting is a stable insertion sort (`isort`), as Go's `slices.SortFunc` for up to 12 elements.
 -/
 namespace NA.Nsx
 
@@ -130,30 +134,6 @@ def genUniqGroups (aIds : List String) (b : List Group) : Option (List Group) :=
     List.zipWith (fun (g : Group) id => { g with id := id }) b ids
 
 /-! ### Sorting and comparing rules -/
-
-/-- Stable insertion sort (kernel-reducible, so that examples can be decided). -/
-def insertBy {α : Type} (le : α → α → Bool) (x : α) : List α → List α
-  | [] => [x]
-  | y :: ys => if le x y then x :: y :: ys else y :: insertBy le x ys
-
-def isort {α : Type} (le : α → α → Bool) : List α → List α
-  | [] => []
-  | x :: xs => insertBy le x (isort le xs)
-
-theorem insertBy_perm {α : Type} (le : α → α → Bool) (x : α) (l : List α) : (insertBy le x l).Perm (x :: l) := by
-  induction l with
-  | nil => exact List.Perm.refl _
-  | cons y ys ih =>
-    simp only [insertBy]
-    by_cases h : le x y = true
-    · simp [h]
-    · simp only [h, Bool.false_eq_true, if_false]
-      exact (List.Perm.cons y ih).trans (List.Perm.swap x y ys)
-
-theorem isort_perm {α : Type} (le : α → α → Bool) (l : List α) : (isort le l).Perm l := by
-  induction l with
-  | nil => exact List.Perm.refl _
-  | cons x xs ih => exact (insertBy_perm le x _).trans (List.Perm.cons x ih)
 
 def sortAddrs (l : List String) : List String := isort (fun a b => decide (a ≤ b)) l
 def sortGroups (gs : List Group) : List Group := gs.map fun g => { g with addrs := sortAddrs g.addrs }
